@@ -66,8 +66,9 @@ def locate_crash(ctx, case, ncases, T):
     t = hi - 1
     dt = case["dt"]
     avail = vprev + case["inflow"][t] * dt
-    losses = (case["pet"][t] * 1e-3 * interp(vprev, case["volumes"], case["areas"])
-              + min(case["demand"][t], interp(vprev, case["volumes"], case["maxRelease"])) * dt)
+    # the release rule at the volume before: the demand raised to the minimum-release curve, capped by the maximum one
+    rel = max(min(case["demand"][t], interp(vprev, case["volumes"], case["maxRelease"])), interp(vprev, case["volumes"], case["minRelease"]))
+    losses = case["pet"][t] * 1e-3 * interp(vprev, case["volumes"], case["areas"]) + rel * dt
     return {"t": t, "volume_before": vprev, "available": avail, "potential_losses": losses, "emptied": avail <= losses}
 
 
